@@ -1,0 +1,110 @@
+//go:build verif
+
+// Accessors for the verification harness in /verif (property C41). Add-only,
+// compiled only with the build tag "verif"; no behaviour change.
+
+package dataplane
+
+import (
+	"context"
+
+	"github.com/scionproto/scion/pkg/addr"
+	"github.com/scionproto/scion/pkg/snet"
+	"github.com/scionproto/scion/private/ringbuf"
+)
+
+// VerifMinMTU is the smallest frame size newSender accepts.
+const VerifMinMTU = minMTU
+
+// VerifReassemblyListCap is the capacity of a reassembly list.
+const VerifReassemblyListCap = reassemblyListCap
+
+// VerifEncoder wraps the real frame encoder.
+type VerifEncoder struct{ e *encoder }
+
+// VerifNewEncoder calls newEncoder.
+func VerifNewEncoder(sessionID uint8, streamID uint32, mtu uint16) *VerifEncoder {
+	return &VerifEncoder{e: newEncoder(sessionID, streamID, mtu)}
+}
+
+// Write is encoder.Write (non-blocking write to the packet ring); it reports
+// whether the ring took the packet.
+func (v *VerifEncoder) Write(pkt []byte) bool {
+	return v.e.ring.Write(pkt, false) == 1
+}
+
+// Close is encoder.Close.
+func (v *VerifEncoder) Close() { v.e.Close() }
+
+// Read is encoder.Read; the frame is copied because the encoder reuses its buffer.
+func (v *VerifEncoder) Read() []byte {
+	f := v.e.Read()
+	if f == nil {
+		return nil
+	}
+	return append([]byte{}, f...)
+}
+
+// Pending is the number of bytes of the current packet not yet put into a frame.
+func (v *VerifEncoder) Pending() int { return len(v.e.pkt) }
+
+// verifSink records what the worker writes to the tunnel device.
+type verifSink struct{ pkts [][]byte }
+
+func (s *verifSink) Write(b []byte) (int, error) {
+	s.pkts = append(s.pkts, append([]byte{}, b...))
+	return len(b), nil
+}
+
+func (s *verifSink) Close() error { return nil }
+
+// VerifWorker wraps a real ingress worker whose tunnel writer records packets.
+type VerifWorker struct {
+	w    *worker
+	sink *verifSink
+}
+
+// VerifNewWorker calls newWorker with a recording sink.
+func VerifNewWorker(sessID uint8) *VerifWorker {
+	sink := &verifSink{}
+	remote := &snet.UDPAddr{IA: addr.MustParseIA("1-ff00:0:110")}
+	return &VerifWorker{w: newWorker(remote, sessID, sink, IngressMetrics{}), sink: sink}
+}
+
+// Deliver hands one received datagram to the worker the way IngressServer.read
+// does: a frame buffer is taken from the pool, filled, frames shorter than the
+// SIG header or with a version other than 0 are released, the others go to
+// worker.processFrame. It reports whether the frame reached the worker.
+func (v *VerifWorker) Deliver(b []byte) bool {
+	frames := make(ringbuf.EntryList, 1)
+	if newFrameBufs(frames) != 1 {
+		return false
+	}
+	frame := frames[0].(*frameBuf)
+	read := copy(frame.raw, b)
+	if read < sigHdrSize || frame.raw[0] != 0 {
+		frame.Release()
+		return false
+	}
+	frame.frameLen = read
+	frame.sessId = frame.raw[1]
+	v.w.processFrame(context.Background(), frame)
+	return true
+}
+
+// Cleanup is worker.cleanup (one tick of the reassembly list garbage collection).
+func (v *VerifWorker) Cleanup() { v.w.cleanup() }
+
+// Release gives the frames still held in reassembly lists back to the pool.
+func (v *VerifWorker) Release() {
+	for _, rl := range v.w.rlists {
+		rl.removeAll()
+	}
+}
+
+// Emitted returns the packets written to the tunnel so far and forgets them.
+func (v *VerifWorker) Emitted() [][]byte {
+	out := v.sink.pkts
+	v.sink.pkts = nil
+	return out
+}
